@@ -644,6 +644,74 @@ def run_trk(ctx, res=None):
 # ---- END trk leg ----
 
 
+# ---- long-backlog probes (oracle only; never replayed through the model) -----------------------------
+
+ASSUMPTIONS.append('long-backlog probes (2 per run, oracle only): a shaper is offered 18 000 - 26 000 small packets at two to three times its token rate '
+                   '(or in a few huge bursts), so that more than ten thousand packets wait at once, and is then left to drain; demanded: the run does not '
+                   'raise, every packet handed to put() is released exactly once, in order ("first in first out ... and nothing is lost")')
+
+
+def gen_backlog(rng, cid, kind):
+    size = rng.choice([40, 64, 100])
+    c = {'cid': f'L{cid}', 'kind': 'backlog', 'shaper': kind, 'size': size, 'rate': rng.choice([8e5, 1e6, 4096e3]),
+         'bucket': rng.choice([0, size, 1500, 10000]), 'n': rng.choice([18000, 20000, 24000, 26000]),
+         'shape': rng.choice(['overload', 'overload', 'bursts']), 'factor': rng.choice([2, 2, 3]), 'chunk': rng.choice([20, 50, 125])}
+    if kind == 'tworate' and rng.random() < 0.5:
+        c['pir'], c['pbs'] = c['rate'] * 2, rng.choice([1500, 10000])
+    return c
+
+
+def run_backlog(c):
+    """-> (failures, stats).  Restates "releases packets first in first out ... and nothing is lost" on a backlog of > 10 000 packets:
+    whatever is handed to put() comes out, once, in order, however many packets are waiting."""
+    from onl.packet import Packet
+    env = Environment()
+    if c['shaper'] == 'tb':
+        dev = TokenBucket(env, c['rate'], c['bucket'])
+    else:
+        dev = TwoRateTokenBucket(env, c['rate'], max(c['bucket'], c['size']), c.get('pir'), c.get('pbs'))
+    out, stat = [], {'in': 0, 'deepest_backlog': 0, 'last_put': 0.0}
+
+    class Rec:
+        def put(self, packet):
+            out.append(packet.packet_id)
+    dev.out = Rec()
+    n, size = c['n'], c['size']
+    per = size * 8.0 / c['rate']                   # seconds of tokens per packet
+
+    def src():
+        k = 0
+        while k < n:
+            m = min(n - k, c['chunk'] if c['shape'] == 'overload' else n // 3 + 1)
+            for _ in range(m):
+                dev.put(Packet(env.now, size, k, src='long', flow_id=0))
+                k += 1
+            stat['in'] = k
+            stat['deepest_backlog'] = max(stat['deepest_backlog'], k - len(out))
+            stat['last_put'] = env.now
+            # `overload`: chunks at `factor` times the token rate; `bursts`: a third of the packets at once, the next third when about half of it has left
+            yield env.timeout(m * per / c['factor'] if c['shape'] == 'overload' else m * per / 2)
+    env.process(src())
+    raised = None
+    try:
+        with quiet():
+            env.run()
+    except BaseException as x:       # noqa
+        raised = f'{type(x).__name__}: {x}'
+    what = (f'{"TokenBucket" if c["shaper"] == "tb" else "TwoRateTokenBucket"}(rate {c["rate"]}, bucket {c["bucket"]}) was handed {stat["in"]} packets of {size} bytes '
+            f'({c["shape"]}, deepest backlog {stat["deepest_backlog"]} packets, last put at {stat["last_put"]!r}) and then left to drain until the simulation ran out of events at {env.now!r}: ')
+    fails = []
+    if raised:
+        fails.append({'what': what + f'the run raised {raised}', 'signature': 'tb-backlog-raised'})
+    elif len(out) != stat['in'] or getattr(dev, 'packets_sent', len(out)) != len(out):
+        first = next((i for i, (a, b) in enumerate(zip(out, range(n))) if a != b), len(out))
+        fails.append({'what': what + f'{len(out)} packets came out ({stat["in"] - len(out)} lost; the first missing id is {first})', 'signature': 'tb-backlog-lost'})
+    elif out != list(range(n)):
+        first = next(i for i, (a, b) in enumerate(zip(out, range(n))) if a != b)
+        fails.append({'what': what + f'the packets came out in another order than they went in (position {first}: id {out[first]})', 'signature': 'tb-backlog-order'})
+    return fails, stat
+
+
 def run(ctx):
     tk = run_tbk(ctx)                        # tbk leg: a replay of one of its cases runs only that leg
     if tk is not None:
@@ -657,6 +725,10 @@ def run(ctx):
         cases = [j['case']] if j.get('case') else [d['case'] for d in j.get('broken_correspondence', [])]
     else:
         cases = [gen_group(rng, i) for i in range(600 if ctx.quick else 12000)]
+    brng = random.Random(f'C11-backlog-{ctx.seed}')
+    backlog = [c for c in cases if c.get('kind') == 'backlog'] if ctx.replay else \
+        [gen_backlog(brng, i, kind) for i, kind in enumerate(['tb', 'tworate'] * (1 if ctx.quick else 4))]
+    cases = [c for c in cases if c.get('kind') != 'backlog']
     text, runs = [], {}
     for c in cases:
         r = run_impl(c)
@@ -745,6 +817,13 @@ def run(ctx):
            'action_lines_replayed': sum(len(ur.acts) for c in cases for _, _, ur in units(c, runs[c['cid']])), 'operation_histogram': dict(sorted(hist.items()))}
     cov.update({'translated': _PREP.get('translated', []), 'generated_files_rewritten': _PREP.get('rewritten', []),
                 'generated_diff_vs_pinned': _PREP.get('diff_vs_pinned', []), 'bridge_theorems': BRIDGES, 'hand_modelled': HAND_MODELLED})
+    cov['long_backlog_probes'] = []
+    for c in backlog:
+        fl, st = run_backlog(c)
+        cov['long_backlog_probes'].append(dict(st, shaper=c['shaper'], shape=c['shape']))
+        for f in fl:
+            f['case'] = c; f['trace'] = []
+            orc.append(f)
     res = {'coverage': cov, 'disagreements': dis, 'oracle_failures': orc}
     run_tbk(ctx, res)                        # tbk leg: appends its coverage, disagreements and oracle failures in place
     run_trk(ctx, res)                        # trk leg: likewise
